@@ -22,6 +22,9 @@ pub struct Caller {
     pub cancel: CancelSpec,
     /// keep the finished call future alive (pinned, polled by reference) this long before dropping it
     pub hold_ms: u64,
+    /// create the call future, keep it unpolled this long, then drop it without ever polling it
+    #[serde(default)]
+    pub drop_unpolled_after_ms: Option<u64>,
 }
 
 #[derive(Clone, Debug, Serialize, Deserialize, PartialEq)]
@@ -48,6 +51,7 @@ pub fn gen(rng: &mut Rng) -> Scn {
             beh,
             cancel: if faulty { gen_cancel(rng, start_ms, 25) } else { CancelSpec::Never },
             hold_ms: if faulty && rng.chance(1, 6) { *rng.pick(&[5u64, 10, 25, 40]) } else { 0 },
+            drop_unpolled_after_ms: if faulty && rng.chance(1, 10) { Some(*rng.pick(&[0u64, 5, 15])) } else { None },
         });
     }
     Scn {
@@ -59,7 +63,7 @@ pub fn gen(rng: &mut Rng) -> Scn {
 pub fn valid(s: &Scn) -> bool {
     s.callers.len() >= 1
         && s.callers.len() <= 12
-        && s.callers.iter().all(|c| c.start_ms <= 300 && c.key >= 1 && c.key <= 4 && c.beh.lat_ms <= 200 && c.beh.yields <= 4 && c.hold_ms <= 100)
+        && s.callers.iter().all(|c| c.start_ms <= 300 && c.key >= 1 && c.key <= 4 && c.beh.lat_ms <= 200 && c.beh.yields <= 4 && c.hold_ms <= 100 && c.drop_unpolled_after_ms.map(|d| d <= 50).unwrap_or(true))
         && s.knobs.jumps.len() <= 3
         && s.knobs.jumps.iter().all(|j| j.0 <= 300 && j.1 <= 200)
 }
@@ -81,6 +85,7 @@ pub fn run(s: &Scn, ctx: &mut RunCtx) -> RunOutput {
             let svc = base.clone();
             let req = Req { id: i as u32, key: c.key };
             let hold = c.hold_ms;
+            let drop_unpolled = c.drop_unpolled_after_ms;
             let make: Box<dyn FnOnce() -> LocalFut> = Box::new(move || {
                 Box::pin(async move {
                     let mut svc = svc;
@@ -88,6 +93,15 @@ pub fn run(s: &Scn, ctx: &mut RunCtx) -> RunOutput {
                         Err(e) => Err(e),
                         Ok(sv) => {
                             let mut f = Box::pin(sv.call(req));
+                            if let Some(d) = drop_unpolled {
+                                world::fault("drop_unpolled");
+                                if d > 0 {
+                                    tokio::time::sleep(Duration::from_millis(d)).await;
+                                }
+                                drop(f);
+                                world::note("dropped_unpolled", i as i64, 0);
+                                return Out::err("DroppedUnpolled", None);
+                            }
                             let r = f.as_mut().await;
                             world::note("result", i as i64, r.is_ok() as i64);
                             if hold > 0 {
@@ -148,8 +162,9 @@ pub fn run(s: &Scn, ctx: &mut RunCtx) -> RunOutput {
             .filter(|d| d.key == c.key && d.req != i as u32 && d.start_seq < fp && d.end_seq.map(|e| e > fp).unwrap_or(true))
             .last();
         let got = result_at.get(&(i as u32)).copied();
+        // a caller that dropped its own call future unpolled has no result to compare
         let out = match t.status {
-            Status::Resolved => t.out.clone(),
+            Status::Resolved => t.out.clone().filter(|o| o.err != Some("DroppedUnpolled")),
             _ => None,
         };
         match leader {
